@@ -8,6 +8,7 @@ package api
 import (
 	"bufio"
 	"context"
+	"encoding/hex"
 	"fmt"
 	"io"
 	"log"
@@ -18,6 +19,7 @@ import (
 	"sync"
 	"testing"
 	"time"
+	"unicode/utf8"
 
 	"github.com/robustirc/robustirc/internal/outputstream"
 	"github.com/robustirc/robustirc/internal/robust"
@@ -156,6 +158,30 @@ loop:
 	return "[" + strings.Join(got, ",") + "]"
 }
 
+// firstline <hex|->: the real firstLine helper of the POST/DELETE handlers on the given text
+func runFirstLine(h string) (res string) {
+	defer func() {
+		if r := recover(); r != nil {
+			res = fmt.Sprintf("panic: %v", r)
+		}
+	}()
+	if h == "-" {
+		h = ""
+	}
+	b, err := hex.DecodeString(h)
+	if err != nil {
+		return "bad-op"
+	}
+	if !utf8.Valid(b) {
+		return "bad-utf8"
+	}
+	out := firstLine(string(b))
+	if out == "" {
+		return "-"
+	}
+	return hex.EncodeToString([]byte(out))
+}
+
 func TestVerifResume(t *testing.T) {
 	in, err := os.Open(os.Getenv("VERIF_OPS"))
 	if err != nil {
@@ -178,6 +204,10 @@ func TestVerifResume(t *testing.T) {
 		go func(i int, l string) {
 			defer wg.Done()
 			defer func() { <-sem }()
+			if strings.HasPrefix(l, "firstline ") {
+				res[i] = runFirstLine(strings.TrimPrefix(l, "firstline "))
+				return
+			}
 			if !strings.HasPrefix(l, "conn ") {
 				res[i] = "bad-op"
 				return
